@@ -25,11 +25,13 @@ import (
 )
 
 type world struct {
-	c        *hx.Ctx
-	k        *ledgerkit.Kit
-	users    []*account.Account // users[0] is the bookkeeper (holds the supplies; only refills, never a random payer)
-	contract common.Address     // deployed: Storage.Put(key, value) then THROWIFNOT flag
-	stored   map[string][]byte  // persisted ONG records at the start of the block being observed
+	c         *hx.Ctx
+	k         *ledgerkit.Kit
+	users     []*account.Account // users[0] is the bookkeeper (holds the supplies; only refills, never a random payer)
+	contract  common.Address     // deployed: Storage.Put(key, value) then THROWIFNOT flag
+	destroyer common.Address     // deployed: System.Contract.Destroy on itself
+	migrator  common.Address     // deployed: Ontology.Contract.Migrate with the caller's parameters
+	stored    map[string][]byte  // persisted ONG records at the start of the block being observed
 }
 
 // decode a stored balance record with the implementation's reader; unit 10^-18 ONG
@@ -94,6 +96,12 @@ func newWorld(c *hx.Ctx) (*world, error) {
 	mtx.GasLimit = 30000000
 	w.contract = common.AddressFromVmCode(code)
 	if err := w.setup(mtx); err != nil {
+		return nil, err
+	}
+	if w.destroyer, err = w.deploySetup(destroyContract(), "destroys itself"); err != nil {
+		return nil, err
+	}
+	if w.migrator, err = w.deploySetup(migrateContract(), "migrates itself"); err != nil {
 		return nil, err
 	}
 	// ONG for the users: plenty, medium, little, a fractional balance, nothing
@@ -251,7 +259,9 @@ func (w *world) genTx() (*types.Transaction, *txDesc, error) {
 	bal := w.ongOf(d.Payer)
 	var mtx *types.MutableTransaction
 	var err error
-	switch k := c.Intn(20); {
+	switch k := c.Intn(30); {
+	case k >= 20: // several sub-calls, then a terminator
+		mtx = w.genComposite(d)
 	case k < 5: // ONG transfer by the payer
 		d.Kind = "ong-transfer"
 		switch c.Intn(6) {
@@ -329,7 +339,7 @@ func (w *world) genTx() (*types.Transaction, *txDesc, error) {
 			b.Emit(vm.THROW)
 		}
 		mtx = w.k.InvokeTx(b.ToArray(), d.Price, d.Limit)
-	default: // random bytes
+	case k < 20: // random bytes
 		d.Kind = "random-script"
 		code := c.Bytes(1 + c.Intn(24))
 		d.Code = hx.Hex(code)
